@@ -12,9 +12,22 @@ package swagen30
 //@ emits checked30(doc.OpenAPI, doc.Info.Title, doc.Info.Description, doc.Info.TermsOfService, doc.Info.Version, len(doc.Servers), doc.Servers[0].URL)
 
 // Placeholders: the three emitters change the document (any heap) but cause no event.
-// assumed frame: the model emitter fills components.schemas and writes schema objects only
-//@ func GenerateModelsSpec trusted
-//@ modifies any(elems(openapi3.Schemas)), any(openapi3.Schema), any(openapi3.SchemaRef), any(elems([]string)), any(elems([]any)), any(elems(openapi3.SchemaRefs))
+// every enum, struct and alias model has a component under its name (C07); references created before their
+// component existed are completed afterwards (fillSchemaRef)
+//@ func fillSchemaRef props C07,C08,C14
+//@ requires openapi != nil && openapi.Components != nil
+//@ modifies any(openapi3.SchemaRef.Value)
+//@ loop 0 invariant true
+//@ func GenerateModelsSpec props C07,C14
+//@ requires openapi != nil && openapi.Components != nil && openapi.Components.Schemas != nil && models != nil
+//@ modifies elems(openapi.Components.Schemas), schemaRefMap, any(elems(schemaRefMap)), any(openapi3.SchemaRef.Value), any(openapi3.Schema.Description), any(openapi3.Schema.Deprecated), any(openapi3.Schema.Format), any(openapi3.Schema.Min), any(openapi3.Schema.Max), any(openapi3.Schema.ExclusiveMin), any(openapi3.Schema.ExclusiveMax), any(openapi3.Schema.MinLength), any(openapi3.Schema.MaxLength), any(openapi3.Schema.Pattern), any(openapi3.Schema.MinItems), any(openapi3.Schema.MaxItems), any(openapi3.Schema.UniqueItems), any(openapi3.Schema.Enum), any(elems([]any))
+//@ ensures result == nil
+//@ ensures enums: forall(k, 0, len(models.Enums), indom(openapi.Components.Schemas, models.Enums[k].Name))
+//@ ensures structs: forall(k, 0, len(models.Structs), indom(openapi.Components.Schemas, models.Structs[k].Name))
+//@ ensures aliases: forall(k, 0, len(models.Aliases), indom(openapi.Components.Schemas, models.Aliases[k].Name))
+//@ loop 0 invariant 0 <= _n && _n <= len(models.Enums) && forall(k, 0, _n, indom(openapi.Components.Schemas, models.Enums[k].Name))
+//@ loop 1 invariant 0 <= _n && _n <= len(models.Structs) && forall(k, 0, len(models.Enums), indom(openapi.Components.Schemas, models.Enums[k].Name)) && forall(k, 0, _n, indom(openapi.Components.Schemas, models.Structs[k].Name))
+//@ loop 2 invariant 0 <= _n && _n <= len(models.Aliases) && forall(k, 0, len(models.Enums), indom(openapi.Components.Schemas, models.Enums[k].Name)) && forall(k, 0, len(models.Structs), indom(openapi.Components.Schemas, models.Structs[k].Name)) && forall(k, 0, _n, indom(openapi.Components.Schemas, models.Aliases[k].Name))
 
 // InterfaceToSchemaRef: a reference to a component carries the component's schema when it already exists and NO
 // schema when it does not (kin-openapi's validator reports exactly the references without one: C08); every other
@@ -33,21 +46,55 @@ package swagen30
 //@ ensures result != nil && fresh(result)
 //@ extern github.com/getkin/kin-openapi/openapi3.NewSchema
 //@ ensures result != nil && fresh(result)
+// every pending reference recorded for later completion has a reference object: a package invariant, established
+// by the package initialiser (the list starts empty) and kept by the only writer, InterfaceToSchemaRef
+//@ spec refsOK(m []SchemaRefMap) bool = forall(i, 0, len(m), m[i].SchemaRef != nil)
+//@ pkginvariant pendingRefs: refsOK(schemaRefMap)
+//@ func init props C07,C08,C14
 //@ func InterfaceToSchemaRef props C08,C07,C14
 //@ requires openapi != nil && openapi.Components != nil
 //@ modifies schemaRefMap, any(elems(schemaRefMap))
-//@ ensures result != nil && implies(result.Ref == "", result.Value != nil)
+//@ ensures result != nil && fresh(result) && implies(result.Ref == "", result.Value != nil && fresh(result.Value))
 //@ ensures isRef: (result.Ref != "") == (swagtool.ToOpenApiType(interfaceType) == "object" && !swagtool.IsGenericObject(interfaceType))
 //@ ensures refName: implies(result.Ref != "", result.Ref == "#/components/schemas/" + interfaceType)
 //@ ensures dangling: implies(result.Ref != "" && openapi.Components.Schemas[interfaceType] == nil, result.Value == nil)
 //@ ensures resolved: implies(result.Ref != "" && openapi.Components.Schemas[interfaceType] != nil, result.Value == openapi.Components.Schemas[interfaceType].Value)
 
-//@ func generateStructSpec props C07,C14 havocs
+// ---- struct components (C07): the component is registered under the struct's name; every field that is not
+// embedded is a property keyed by its JSON name; `required` lists exactly the JSON names of the fields whose
+// validate tag asks for it ----
+//@ spec jsonName(f definitions.FieldMetadata) string = swagtool.GetJsonNameFromTag(f.Tag, f.Name)
+//@ spec fieldRequired(f definitions.FieldMetadata) bool = swagtool.IsFieldRequired(swagtool.GetTagValue(f.Tag, "validate", ""))
+//@ spec skippedField(f definitions.FieldMetadata) bool = f.IsEmbedded && f.Type == "error"
+//@ spec hasEmbedded(m definitions.StructMetadata) bool = exists(k, 0, len(m.Fields), m.Fields[k].IsEmbedded && m.Fields[k].Type != "error")
+// the schema that carries the struct's own fields: the component itself, or the first member of its allOf
+//@ spec fieldsSchema(c *openapi3.SchemaRef, m definitions.StructMetadata) *openapi3.Schema = ite(hasEmbedded(m), c.Value.AllOf[0].Value, c.Value)
+//@ func generateStructSpec props C07,C14
 //@ requires openapi != nil && openapi.Components != nil && openapi.Components.Schemas != nil
+//@ modifies elems(openapi.Components.Schemas), schemaRefMap, any(elems(schemaRefMap)), any(openapi3.Schema.Description), any(openapi3.Schema.Deprecated), any(openapi3.Schema.Format), any(openapi3.Schema.Min), any(openapi3.Schema.Max), any(openapi3.Schema.ExclusiveMin), any(openapi3.Schema.ExclusiveMax), any(openapi3.Schema.MinLength), any(openapi3.Schema.MaxLength), any(openapi3.Schema.Pattern), any(openapi3.Schema.MinItems), any(openapi3.Schema.MaxItems), any(openapi3.Schema.UniqueItems), any(openapi3.Schema.Enum), any(elems([]any))
+//@ ensures reg: indom(openapi.Components.Schemas, model.Name) && openapi.Components.Schemas[model.Name] != nil && openapi.Components.Schemas[model.Name].Value != nil
+//@ ensures others: forall(n, string, implies(n != model.Name, indom(openapi.Components.Schemas, n) == old(indom(openapi.Components.Schemas, n)) && openapi.Components.Schemas[n] == old(openapi.Components.Schemas[n])))
+//@ ensures shape: implies(hasEmbedded(model), len(openapi.Components.Schemas[model.Name].Value.AllOf) >= 1 && openapi.Components.Schemas[model.Name].Value.AllOf[0] != nil && openapi.Components.Schemas[model.Name].Value.AllOf[0].Value != nil)
+//@ ensures title: fieldsSchema(openapi.Components.Schemas[model.Name], model).Title == model.Name && fieldsSchema(openapi.Components.Schemas[model.Name], model).Description == model.Description
+//@ ensures props: forall(k, 0, len(model.Fields), implies(!model.Fields[k].IsEmbedded, indom(fieldsSchema(openapi.Components.Schemas[model.Name], model).Properties, jsonName(model.Fields[k]))))
+//@ ensures reqComplete: forall(k, 0, len(model.Fields), implies(!model.Fields[k].IsEmbedded && fieldRequired(model.Fields[k]), exists(r, 0, len(fieldsSchema(openapi.Components.Schemas[model.Name], model).Required), fieldsSchema(openapi.Components.Schemas[model.Name], model).Required[r] == jsonName(model.Fields[k]))))
+//@ ensures reqSound: forall(r, 0, len(fieldsSchema(openapi.Components.Schemas[model.Name], model).Required), exists(k, 0, len(model.Fields), !model.Fields[k].IsEmbedded && fieldRequired(model.Fields[k]) && fieldsSchema(openapi.Components.Schemas[model.Name], model).Required[r] == jsonName(model.Fields[k])))
+//@ loop 0 invariant 0 <= _n && _n <= len(model.Fields) && fresh(relevantFields) && schema != nil && fresh(schema) && schema.Properties != nil && fresh(schema.Properties) && schema.Title == model.Name && schema.Description == model.Description && len(schema.Required) == 0
+//@ loop 0 invariant hasEmbeddedField == exists(k, 0, _n, model.Fields[k].IsEmbedded && model.Fields[k].Type != "error")
+//@ loop 0 invariant forall(j, 0, len(relevantFields), exists(k, 0, _n, relevantFields[j] == model.Fields[k]))
+//@ loop 0 invariant forall(j, 0, len(relevantFields), implies(relevantFields[j].IsEmbedded, hasEmbeddedField))
+//@ loop 0 invariant forall(k, 0, _n, skippedField(model.Fields[k]) || exists(j, 0, len(relevantFields), relevantFields[j] == model.Fields[k]))
+//@ loop 1 invariant 0 <= _n && _n <= len(relevantFields) && fresh(requiredFields) && schema != nil && fresh(schema) && schema.Properties != nil && fresh(schema.Properties) && schema.Title == model.Name && schema.Description == model.Description && len(schema.Required) == 0 && modelSchema != nil && fresh(modelSchema)
+//@ loop 1 invariant implies(!hasEmbeddedField, modelSchema == schema) && implies(hasEmbeddedField, modelSchema != schema && len(modelSchema.AllOf) >= 1 && fresh(modelSchema.AllOf) && modelSchema.AllOf[0] != nil && fresh(modelSchema.AllOf[0]) && modelSchema.AllOf[0].Value == schema)
+//@ loop 1 invariant forall(j, 0, len(relevantFields), implies(relevantFields[j].IsEmbedded, hasEmbeddedField))
+//@ loop 1 invariant forall(n, string, indom(openapi.Components.Schemas, n) == old(indom(openapi.Components.Schemas, n)) && openapi.Components.Schemas[n] == old(openapi.Components.Schemas[n]))
+//@ loop 1 invariant forall(j, 0, _n, implies(!relevantFields[j].IsEmbedded, indom(schema.Properties, jsonName(relevantFields[j]))))
+//@ loop 1 invariant forall(j, 0, _n, implies(!relevantFields[j].IsEmbedded && fieldRequired(relevantFields[j]), exists(r, 0, len(requiredFields), requiredFields[r] == jsonName(relevantFields[j]))))
+//@ loop 1 invariant forall(r, 0, len(requiredFields), exists(j, 0, _n, !relevantFields[j].IsEmbedded && fieldRequired(relevantFields[j]) && requiredFields[r] == jsonName(relevantFields[j])))
 
 //@ func GenerateSpec props C08,C20,C01,C14
 //@ modifies any(openapi3.PathItem), any(openapi3.Paths), any(openapi3.Responses), any(definitions.TypeMetadata.Name), any(elems([]*openapi3.ParameterRef)), any(openapi3.RequestBody), any(openapi3.RequestBodyRef), any(elems(openapi3.Content)), any(elems(openapi3.Schemas)), any(elems([]string)), any(openapi3.Schema.Description), any(openapi3.Schema.Required), any(openapi3.Schema.Format), any(openapi3.Schema.Min), any(openapi3.Schema.Max), any(openapi3.Schema.ExclusiveMin), any(openapi3.Schema.ExclusiveMax), any(openapi3.Schema.MinLength), any(openapi3.Schema.MaxLength), any(openapi3.Schema.Pattern), any(openapi3.Schema.MinItems), any(openapi3.Schema.MaxItems), any(openapi3.Schema.UniqueItems), any(openapi3.Schema.Enum), any(SchemaRefMap), any(elems(schemaRefMap)), any(elems([]any)), any(openapi3.Schema), any(openapi3.SchemaRef), any(elems(openapi3.SchemaRefs)), any(elems(map[string]interface{})), any(elems([]interface{})), schemaRefMap
-//@ requires config != nil
+//@ requires config != nil && models != nil
 //@ requires swagtool.emittable(defs)
 //@ requires swagtool.uniqueSchemes(config.SecuritySchemes)
 //@ mayemit validatedSpec, checked30, opRegistered, pathSet
@@ -233,3 +280,18 @@ package swagen30
 //@ loop 0 invariant fresh(securitySchemes)
 //@ loop 0 invariant forall(k, 0, _n, schemeDocumented30(securitySchemes, (*securityConfig)[k]) && fresh(securitySchemes[(*securityConfig)[k].SecurityName]) && fresh(securitySchemes[(*securityConfig)[k].SecurityName].Value))
 //@ loop 0 invariant forall(n, string, implies(indom(securitySchemes, n), exists(k, 0, _n, (*securityConfig)[k].SecurityName == n)))
+
+// ---- enum and alias components (C07): registered under their name, one enum entry per declared value ----
+//@ func generateEnumSpec props C07,C14
+//@ requires openapi != nil && openapi.Components != nil && openapi.Components.Schemas != nil
+//@ modifies elems(openapi.Components.Schemas)
+//@ ensures reg: indom(openapi.Components.Schemas, model.Name) && openapi.Components.Schemas[model.Name] != nil && openapi.Components.Schemas[model.Name].Value != nil
+//@ ensures shape: openapi.Components.Schemas[model.Name].Value.Title == model.Name && openapi.Components.Schemas[model.Name].Value.Description == model.Description && len(openapi.Components.Schemas[model.Name].Value.Enum) == len(model.Values)
+//@ ensures others: forall(n, string, implies(n != model.Name, indom(openapi.Components.Schemas, n) == old(indom(openapi.Components.Schemas, n)) && openapi.Components.Schemas[n] == old(openapi.Components.Schemas[n])))
+//@ loop 0 invariant 0 <= _n && _n <= len(model.Values) && len(enumValues) == _n && fresh(enumValues)
+
+//@ func generateAliasSpec props C07,C14
+//@ requires openapi != nil && openapi.Components != nil && openapi.Components.Schemas != nil
+//@ modifies elems(openapi.Components.Schemas)
+//@ ensures reg: indom(openapi.Components.Schemas, alias.Name) && openapi.Components.Schemas[alias.Name] != nil && openapi.Components.Schemas[alias.Name].Value != nil && openapi.Components.Schemas[alias.Name].Value.Title == alias.Name
+//@ ensures others: forall(n, string, implies(n != alias.Name, indom(openapi.Components.Schemas, n) == old(indom(openapi.Components.Schemas, n)) && openapi.Components.Schemas[n] == old(openapi.Components.Schemas[n])))
